@@ -48,6 +48,7 @@ type vhResp struct {
 	Toks   []vhTok           `json:"toks,omitempty"`
 	Fmt    string            `json:"fmt_hex,omitempty"`
 	Vars   []string          `json:"vars,omitempty"`
+	VarsH  []string          `json:"vars_hex,omitempty"` // the same, byte-exact (JSON strings mangle invalid UTF-8)
 	BinOps map[string][]any  `json:"binops,omitempty"`
 	KeyWds map[string]string `json:"keywords,omitempty"`
 }
@@ -136,6 +137,21 @@ func vhSInterP(buf string) (resp vhResp) {
 	if resp.Vars == nil {
 		resp.Vars = []string{}
 	}
+	for _, v := range vs {
+		resp.VarsH = append(resp.VarsH, hex.EncodeToString([]byte(v)))
+	}
+	resp.Ok = true
+	return
+}
+
+func vhReinterp(buf string) (resp vhResp) {
+	defer func() {
+		if r := recover(); r != nil {
+			resp.Ok = false
+			resp.Err = fmt.Sprintf("%v", r)
+		}
+	}()
+	resp.Fmt = hex.EncodeToString([]byte(reinterpretEscape(buf)))
 	resp.Ok = true
 	return
 }
@@ -184,6 +200,8 @@ func vhServe() {
 					resp = vhScan(string(buf), req.Pos)
 				case "sinterp":
 					resp = vhSInterP(string(buf))
+				case "reinterp":
+					resp = vhReinterp(string(buf))
 				case "tables":
 					resp = vhTables()
 				default:
